@@ -180,6 +180,41 @@ theorem compatibleC_sound_fails_limits : ¬ compatibleC_sound_statement Rat := b
   rw [this] at hr
   cases hr
 
+/-! ## rebuilding and copying trees with derived classes -/
+
+open Frappy.Lemmas.C03V in
+/-- `copy()` of a tree with derived classes (`copyC`: `TextType` and `LimitsType` come back as themselves, a
+`StatusType` as the plain tuple of its members) is described as the same kind tree — hence `copy_equiv` applies to
+its datainfo, `import_value` and `__call__`, which the derived classes inherit — and validates exactly like the
+original, the order test of every `LimitsType` included -/
+theorem copyC_equiv (a : CType F) :
+    (copyC a).erase = a.erase ∧ ∀ v prev, cvalidate (copyC a) v prev = cvalidate a v prev :=
+  ⟨erase_copyC a, cvalidate_copyC a⟩
+
+/-- the full statement for the rebuild: the type `get_datatype` builds from the description of a tree with derived
+classes (`rebuildC`: base classes only) accepts and rejects the same values with equal results -/
+def rebuildC_equiv_statement (F : Type) [FloatOps F] : Prop :=
+  ∀ (a : CType F) (v : PVal F) (prev : Option (PVal F)), a.WF → cvalidate (rebuildC a) v prev = cvalidate a v prev
+
+open Frappy.Lemmas.C03V in
+/-- proved part: … when the tree holds no `LimitsType` (`TextType`, `StatusType` anywhere).  Missing: `LimitsType`,
+whose order test is not part of the description — counterexample below (recorded finding). -/
+theorem rebuildC_equiv_partial (a : CType F) (h : a.limitsFree = true) (v : PVal F) (prev : Option (PVal F)) :
+    (rebuildC a).erase = a.erase ∧ cvalidate (rebuildC a) v prev = cvalidate a v prev :=
+  ⟨erase_ofKind a.erase, cvalidate_rebuildC a h v prev⟩
+
+/-- the full statement fails on the code that exists: `LimitsType(IntRange(0,10))` is described as
+`tuple(int, int)`; the rebuilt type accepts `(10, 0)`, the original refuses it -/
+theorem rebuildC_equiv_fails_limits : ¬ rebuildC_equiv_statement Rat := by
+  intro hs
+  have h := hs (.limits (.leaf (.int 0 10))) (.tuple [.int 10, .int 0]) none
+    (by simp [CType.WF, CType.isNumeric, DType.WF, DType.isLeafKind, DType.intLimit])
+  have h1 : cvalidate (rebuildC (.limits (.leaf (.int 0 10)) : CType Rat)) (.tuple [.int 10, .int 0]) none
+      = .ok (.tuple [.int 10, .int 0]) := rfl
+  have h2 : cvalidate (.limits (.leaf (.int 0 10)) : CType Rat) (.tuple [.int 10, .int 0]) none = .error .range := rfl
+  rw [h1, h2] at h
+  cases h
+
 /-- the monitor decides `Nested` -/
 theorem nestedB_iff (a b : DType F) : nestedB a b = true ↔ Nested a b := decide_eq_true_iff
 
@@ -297,6 +332,15 @@ example : ∃ (a b : CType Rat), a.WF ∧ b.WF ∧ GridAligned a.erase ∧ GridA
       (by simp [CType.erase, CType.eraseList, GridAligned, GridAlignedList]) (by decide +kernel)
   · simp [InSetC, InSet, InSetG, ZipInG, CType.erase, OrderedIn, unlimitedChars]
     decide
+
+/-- `rebuildC_equiv_partial` applies to a struct holding a `StatusType` and a `TextType`; `copyC` turns the
+`StatusType` into a plain tuple and keeps a `LimitsType` -/
+example : ∃ a : CType Rat, a.WF ∧ a.limitsFree = true ∧
+    (rebuildC a).skel = .struct [("s", .tuple [.leaf, .leaf]), ("t", .leaf)] ∧
+    (copyC (.tuple [a, .limits (.leaf (.int 0 5))])).skel =
+      .tuple [.struct [("s", .tuple [.leaf, .leaf]), ("t", .text)], .limits .leaf] :=
+  ⟨.struct [("s", .status [("IDLE", 100)]), ("t", .text 80)] [] false,
+    by simp [CType.WF, CType.WFFields, DType.namesOK], by decide, rfl, rfl⟩
 
 /-- the law classes are inhabited: the exact carrier -/
 example : LawfulFloatOps Rat ∧ CompatLaws Rat := ⟨inferInstance, inferInstance⟩
